@@ -119,6 +119,84 @@ fn run(ctx: &mut Ctx) {
         assert_eq!(enc::crc32c(&[&b"head"[..], &m[..], &b"tail-bytes"[..]].concat()), t, "CRC middle forging self-test");
     }
     let thorough = !ctx.quick();
+    // ---- what a process decodes FIRST must not matter (state latched by the first call): every shard is a fresh
+    // process and starts with a different near-valid padded chunk, then goes on with the common workload
+    {
+        let which = ctx.shard % 16;
+        let mut rng = ctx.rng_for("first-decode", which as u64);
+        let board = rng_board(&mut rng);
+        let c = enc::Chunk { device_id: pwb_device_id(&board), packet_sequence: 1, channel_sequence: 2, channel_id: 1, flags: (which % 2) as u8, chunk_id: 0, payload: rng.bytes(5).iter().map(|b| b | 1).collect() };
+        let mut b = c.encode();
+        let n = b.len();
+        let fix_h = |b: &mut Vec<u8>| {
+            let h = !enc::crc32c(&b[..16]);
+            b[16..20].copy_from_slice(&h.to_le_bytes());
+        };
+        let fix_p = |b: &mut Vec<u8>| {
+            let n = b.len();
+            let p = !enc::crc32c(&b[20..n - 4]);
+            b[n - 4..].copy_from_slice(&p.to_le_bytes());
+        };
+        match which {
+            0 => {}
+            1 => {
+                let p = !enc::crc32c(&b[20..25]);
+                b[n - 4..].copy_from_slice(&p.to_le_bytes());
+            }
+            2 => {
+                b[26] = 0x80;
+                fix_p(&mut b);
+            }
+            3 => {
+                let p = enc::crc32c(&b[20..n - 4]);
+                b[n - 4..].copy_from_slice(&p.to_le_bytes());
+            }
+            4 => {
+                let h = enc::crc32c(&b[..16]);
+                b[16..20].copy_from_slice(&h.to_le_bytes());
+            }
+            5 => {
+                b[14] = 6;
+                fix_h(&mut b);
+            }
+            6 => {
+                b[14] = 1;
+                fix_h(&mut b);
+            }
+            7 => {
+                b[11] = 2;
+                fix_h(&mut b);
+            }
+            8 => {
+                b[10] = 4;
+                fix_h(&mut b);
+            }
+            9 => {
+                b[0] ^= 1;
+                fix_h(&mut b);
+            }
+            10 => {
+                let p = (!enc::crc32c(&b[20..n - 4])).to_be_bytes();
+                b[n - 4..].copy_from_slice(&p);
+            }
+            11 => {
+                let p = !enc::crc32c(&b[..n - 4]);
+                b[n - 4..].copy_from_slice(&p.to_le_bytes());
+            }
+            12 => {
+                b.truncate(n - 4);
+                b.extend([0u8; 8]);
+                fix_p(&mut b);
+            }
+            13 => b.truncate(n - 1),
+            14 => b[21] ^= 0x10,
+            _ => b[5] ^= 0x10,
+        }
+        ctx.cur_stream = "first-decode".into();
+        ctx.cur_case = which as u64;
+        differential(ctx, &b, "first chunk decoded by this process");
+        ctx.count("first-decode probes");
+    }
     // ---- well-formed and near-valid chunks
     let mut plens: Vec<usize> = (1..=64).collect();
     plens.extend([255, 256, 257, 1399, 1400, 4095, 4096, 65532, 65533, 65534, 65535]);
